@@ -464,8 +464,14 @@ func exemptFromHavocAll(comp string) bool {
 
 func (x *Unit) isImmutableComp(comp string) bool {
 	if strings.HasPrefix(comp, "F:") {
-		if fd, ok := x.fieldDecls[comp[2:]]; ok && fd.Discipline == "immutable" {
+		name := comp[2:]
+		if fd, ok := x.fieldDecls[name]; ok && fd.Discipline == "immutable" {
 			return true
+		}
+		if parts := strings.Split(name, "."); len(parts) == 3 {
+			if fd, ok := x.fieldDecls[parts[1]+"."+parts[2]]; ok && fd.Discipline == "immutable" {
+				return true
+			}
 		}
 	}
 	return false
@@ -662,7 +668,8 @@ func (x *Unit) fieldComp(structT types.Type, field string) (string, *Sort, types
 func (x *Unit) mapComps(mt *types.Map) (dom, val, card string, ks, vs *Sort) {
 	ks = x.U.SortOf(mt.Key())
 	vs = x.U.SortOf(mt.Elem())
-	id := strings.Trim(ks.Name, "|") + "," + strings.Trim(vs.Name, "|")
+	id := shortTypeString(types.Unalias(mt.Key())) + "," + shortTypeString(types.Unalias(mt.Elem()))
+	id = strings.NewReplacer("|", "!", "\\", "/").Replace(id)
 	dom = x.regComp("MD:"+id, x.U.arraySort(SInt, x.U.arraySort(ks, SBool)))
 	val = x.regComp("MV:"+id, x.U.arraySort(SInt, x.U.arraySort(ks, vs)))
 	card = x.regComp("MC:"+id, x.U.arraySort(SInt, SInt))
